@@ -44,7 +44,7 @@ def _positional_to_named(cond, args):
 def run_worker(prop, cond, mode, tier, tmp):
     out = os.path.join(tmp, hashlib.md5(f"{cond.name}|{mode}".encode()).hexdigest() + ".json")
     scale = float(os.environ.get("VF_TIMEOUT_SCALE", "1"))
-    hard = (min(cond.timeout, 60) if mode == "reach" else cond.timeout) * scale * 1.5 + 90
+    hard = (min(cond.timeout, 60) if mode == "reach" else cond.timeout) * scale * 3 + 120
     cmd = ["timeout", "-k", "5", str(int(hard)), PY, "-m", "vf.worker", prop, cond.name, mode, tier, out]
     t0 = time.perf_counter()
     p = subprocess.run(cmd, cwd=VERIF, stdout=subprocess.PIPE, stderr=subprocess.PIPE, text=True)
